@@ -143,6 +143,15 @@ impl TreeNodeWithPreviousValue {
         // version of this node.
         if self.latest_node.last_epoch > target_epoch {
             if let Some(previous_node) = &self.previous_node {
+                if previous_node.last_epoch > target_epoch {
+                    // the previous version is also newer than the target epoch: this record no
+                    // longer holds the node as it was at the target epoch
+                    return Err(StorageError::Other(format!(
+                        "TreeNode {:?} has no version at or before epoch {}",
+                        NodeKey(self.label),
+                        target_epoch
+                    )));
+                }
                 Ok(previous_node.clone())
             } else {
                 // no previous, return not found
